@@ -67,3 +67,34 @@ V('C18', 'neg-reorder-after-backslash', Q, 'edb.edgeql.quote.escape_string',
   '''    result = result.replace('\\n', '\\\\n')
     result = result.replace('\\r', '\\\\r')''', '''    result = result.replace('\\r', '\\\\r')
     result = result.replace('\\n', '\\\\n')''', None)
+# behaviour-preserving restructure of needs_quoting into early returns
+V('C18', 'neg-needs-quoting-early-returns', Q, 'edb.edgeql.quote.needs_quoting',
+  '''    r = _re_ident_or_num if allow_num else _re_ident
+    isalnum = r.fullmatch(string)
+
+    string = string.lower()
+
+    is_reserved = (
+        string not in {'__type__', '__std__'}
+        and string in keywords.by_type[keywords.RESERVED_KEYWORD]
+    )
+
+    return (
+        not isalnum
+        or (not allow_reserved and is_reserved)
+    )''', '''    r = _re_ident_or_num if allow_num else _re_ident
+    if not r.fullmatch(string):
+        return True
+    if allow_reserved:
+        return False
+    lowered = string.lower()
+    return (
+        lowered not in {'__type__', '__std__'}
+        and lowered in keywords.by_type[keywords.RESERVED_KEYWORD]
+    )''', None)
+V('C18', 'neg-pg-needs-quoting-reordered', PC, 'edb.pgsql.common.needs_quoting',
+  '''        string
+        and not string[0].isdecimal()
+        and string.replace('_', 'a').isalnum()''', '''        string
+        and string.replace('_', 'a').isalnum()
+        and not string[:1].isdigit()''', None)
